@@ -996,9 +996,16 @@ def orth_rule(ctx):
     return res
 
 
+def ld_elem_rule(ctx):
+    """The scalar nonlinearities sum an elementwise log-derivative: their map must be elementwise."""
+    from .c07 import elementwise_rule, SCALAR_TABLE
+
+    return elementwise_rule(ctx, SCALAR_TABLE, "LD-ELEM", 14)
+
+
 register(
     "C01",
-    [nodrop_rule, ld_shape_rule, ld_mult_rule],
+    [nodrop_rule, ld_shape_rule, ld_mult_rule, ld_elem_rule],
     "LD-NODROP: abstract interpretation of every transform / distribution / spline entry point in which the second component "
     "of every pair-returning transform, hook or spline call is relabelled with its call site; at every return of a "
     "pair-returning function (and of log_prob) the label of every such call made in that activation must be present in the "
@@ -1007,7 +1014,9 @@ register(
     "num_batch_dims omitted or 1, a .sum(1|-1) after reshape(B,-1) / in a 2-D-only class, a scalar times new_ones(batch), or "
     "sums/delegations of these; num_batch_dims != 1, dim 0 reductions, reshape(-1)/flatten and un-reduced elementwise "
     "log-derivatives are definite errors; other forms are counted, not reported. LD-MULT: h*w for ActNorm on images, "
-    "per-pixel log-dets reshaped (b,h,w) and summed for the 1x1 convolution, numel/expand-sum for pointwise affine. That each "
+    "per-pixel log-dets reshaped (b,h,w) and summed for the 1x1 convolution, numel/expand-sum for pointwise affine. LD-ELEM: "
+    "the scalar nonlinearities and the pointwise affine transform, whose log-det sums an elementwise derivative, apply no "
+    "position-mixing operation to an input-dependent value. That each "
     "closed-form derivative equals the derivative of the output formula (algebra on values) is NOT decided.",
     [A_NET, A_UMNN, T_OPS],
 )
